@@ -209,24 +209,26 @@ func (op _OpContextType) decodeInst(x uint32) (as abi.As, arg *abi.AsArgument, a
 		arg.Imm = imm
 		return
 	case OpFormatType_2R_msbw_lsbw:
+		// msbw [20:16], lsbw [14:10]
 		argRaw.Rd = rd
 		argRaw.Rs1 = rj
-		argRaw.Rs2 = rk
-		argRaw.Rs3 = fa
+		argRaw.Rs2 = uimm(x, 16, 5)
+		argRaw.Rs3 = uimm(x, 10, 5)
 		arg.Rd = op.decodeRegI(rd)
 		arg.Rs1 = op.decodeRegI(rj)
-		arg.Rs2 = abi.RegType(rk)
-		arg.Rs3 = abi.RegType(fa)
+		arg.Rs2 = abi.RegType(argRaw.Rs2)
+		arg.Rs3 = abi.RegType(argRaw.Rs3)
 		return
 	case OpFormatType_2R_msbd_lsbd:
+		// msbd [21:16], lsbd [15:10]
 		argRaw.Rd = rd
 		argRaw.Rs1 = rj
-		argRaw.Rs2 = rk
-		argRaw.Rs3 = fa
+		argRaw.Rs2 = uimm(x, 16, 6)
+		argRaw.Rs3 = uimm(x, 10, 6)
 		arg.Rd = op.decodeRegI(rd)
 		arg.Rs1 = op.decodeRegI(rj)
-		arg.Rs2 = abi.RegType(rk)
-		arg.Rs3 = abi.RegType(fa)
+		arg.Rs2 = abi.RegType(argRaw.Rs2)
+		arg.Rs3 = abi.RegType(argRaw.Rs3)
 		return
 	case OpFormatType_fcsr_1R:
 		argRaw.Rd = rd
